@@ -357,9 +357,22 @@ func (ec *evalCtx) assertTo(iv *IfaceV, to types.Type) (*Term, Value) {
 	payload, have := iv.Payloads[name]
 	if !have {
 		payload = ec.e().freshNamed(ec.st, ec.e().fresher.name("payload:"+shortTypeName(name)), to, 0)
-		// the payload of a given interface value is a function of its identity for scalars
+		// the payload of a given interface value is a function of its identity: for scalars, and for values built
+		// from scalars (structs, strings, slices) - so that the code and a contract looking at the same interface
+		// value see the same payload
 		if t, ok := payload.(*Term); ok {
 			payload = App("payload:"+name, t.Sort, iv.Id)
+		} else {
+			switch to.Underlying().(type) {
+			case *types.Struct, *types.Slice:
+				if !foreignStruct(to) {
+					payload = ec.e().elemAt("payload:"+name, to, iv.Id, 1)
+					// a value that enters from outside: its type invariants are assumed (as freshNamed does)
+					for _, inv := range ec.e().typeInvTerms(payload, to, "payload:"+name, 0) {
+						ec.st.Assume(inv)
+					}
+				}
+			}
 		}
 		iv.Payloads[name] = payload
 	}
